@@ -325,6 +325,39 @@ STAGE_LIMIT = 600
 
 
 def run_pipeline(desc, cfg, reference=False):
+    """paged runs go through a child process: a change that makes two tubes share one paging file ends
+    in SIGBUS, which must be a recorded result and not the death of the check"""
+    if not cfg["page"]:
+        return _run_pipeline(desc, cfg, reference)
+    import pickle
+    import signal as _signal
+    rd, wr = os.pipe()
+    pid = os.fork()
+    if pid == 0:
+        code = 0
+        try:
+            os.close(rd)
+            data = pickle.dumps(_run_pipeline(desc, cfg, reference))
+            with os.fdopen(wr, "wb") as f:
+                f.write(data)
+        except BaseException:   # noqa
+            code = 3
+        os._exit(code)
+    os.close(wr)
+    with os.fdopen(rd, "rb") as f:
+        data = f.read()
+    _, status = os.waitpid(pid, 0)
+    if os.WIFSIGNALED(status) or not data:
+        why = ("killed by signal %d (%s)" % (os.WTERMSIG(status), _signal.Signals(os.WTERMSIG(status)).name)
+               if os.WIFSIGNALED(status) else "exited with status %d without a result" % os.WEXITSTATUS(status))
+        stages = ["thermal"] if desc["material"] == "thermohydraulic" else ["thermal", "structural", "damage"]
+        return {"stages": {st: ("raised ProcessCrash: the paged pipeline %s" % why if k == 0 else "skipped") for k, st in enumerate(stages)},
+                "snaps": {}, "life": None, "rel": None, "branch": None, "subs": None, "pools": {}, "verbose_branch": None,
+                "paged_types": None, "errors": {stages[0]: ("ProcessCrash", why)}}
+    return pickle.loads(data)
+
+
+def _run_pipeline(desc, cfg, reference=False):
     """all stages of one receiver.  cfg = {nthreads, progress, page}.  reference=True: no worker
     process anywhere, structural stage without SpringSystemSolver.solve.
     Returns dict(stages={name: 'ok' | 'raised ...' | 'skipped'}, snaps={stage: snapshot}, life, rel, ...)"""
